@@ -525,6 +525,9 @@ class C13(Spec):
         if op == 'trange':
             return b.get_range(x / fs, y / fs)
         if op == 'latest1':
+            # upper bound omitted: in samples, or (every other one, when the float round trip is exact) in seconds
+            if exact and x % 2 == 0:
+                return b.get_latest(x / fs)
             return b.get_latest_samples(x)
         if op == 'tlatest' and exact:
             return b.get_latest(x / fs, y / fs)
